@@ -63,6 +63,7 @@ type verifC37Plan struct {
 	ObsEvery       int // observer yields on every n-th observation (0: no observer)
 	ObsSleepUs     int
 	Salt           uint64
+	ReleaseUs      int // ReleaseTimeout of the ants pool after Close (0: package default 100ms)
 }
 
 type verifC37SubmitRec struct {
@@ -197,7 +198,7 @@ func verifC37Build(r *verifC37Run) (*verifC37Target, error) {
 	zero := func(verifC37Item) int { return 0 }
 	switch p.Prim {
 	case "pool":
-		q, err := NewBoundedPool[verifC37Item](BoundedPoolConfig{Name: "verif", Workers: p.Workers, QueueSize: p.Queue, Observer: pobs},
+		q, err := NewBoundedPool[verifC37Item](BoundedPoolConfig{Name: "verif", Workers: p.Workers, QueueSize: p.Queue, Observer: pobs, ReleaseTimeout: time.Duration(p.ReleaseUs) * time.Microsecond},
 			func(_ context.Context, it verifC37Item) error { r.handle(0, []verifC37Item{it}); return nil })
 		if err != nil {
 			return nil, err
@@ -221,7 +222,7 @@ func verifC37Build(r *verifC37Run) (*verifC37Target, error) {
 			return q.Submit(ctx, it)
 		}}, nil
 	case "batch":
-		cfg := BoundedBatchPoolConfig[verifC37Item]{Name: "verif", Workers: p.Workers, QueueSize: p.Queue, Observer: pobs,
+		cfg := BoundedBatchPoolConfig[verifC37Item]{Name: "verif", Workers: p.Workers, QueueSize: p.Queue, Observer: pobs, ReleaseTimeout: time.Duration(p.ReleaseUs) * time.Microsecond,
 			CancelAcceptedOnClose: p.CancelAccepted, CancelRunningOnClose: p.CancelRunning,
 			CancelAccepted: r.cancelHook,
 			Policy: func(first verifC37Item) BatchOptions {
@@ -245,7 +246,7 @@ func verifC37Build(r *verifC37Run) (*verifC37Target, error) {
 		}}, nil
 	case "mailbox":
 		q, err := NewShardedMailbox[verifC37Item](ShardedMailboxConfig{Name: "verif", Shards: p.Shards, Workers: p.Workers, QueueSizePerShard: p.Queue,
-			BatchMaxItems: p.BatchMax, BatchMaxWait: time.Duration(p.BatchWaitUs) * time.Microsecond, Observer: mobs},
+			BatchMaxItems: p.BatchMax, BatchMaxWait: time.Duration(p.BatchWaitUs) * time.Microsecond, Observer: mobs, ReleaseTimeout: time.Duration(p.ReleaseUs) * time.Microsecond},
 			func(_ context.Context, b MailboxBatch[verifC37Item]) error {
 				if len(b.Items) == 0 {
 					r.mu.Lock()
@@ -351,6 +352,7 @@ func verifC37DrawPlan(rt *rapid.T, prim string) *verifC37Plan {
 		p.ObsSleepUs = rapid.SampledFrom([]int{0, 0, 5, 50}).Draw(rt, "obsSleepUs")
 	}
 	p.Salt = rapid.Uint64Range(0, 1<<20).Draw(rt, "salt")
+	p.ReleaseUs = rapid.SampledFrom([]int{0, 0, 1, 200}).Draw(rt, "releaseUs")
 	return p
 }
 
